@@ -979,7 +979,7 @@ func c19MapShards(p *core.Prog, r *core.Report) {
 		isMap := func(n *core.Node) bool {
 			return n.N != nil && len(core.CallsIn(info, n.N, mapPoint, core.WalkOpts{})) > 0
 		}
-		rr := g.Reach([]*core.Node{bodyN}, nil, core.EdgeEstablishing(notStale))
+		rr := g.Reach([]*core.Node{bodyN}, nil, core.EdgeEstablishingM3(info, body, notStale))
 		bad := false
 		var at *core.Node
 		for _, n := range g.Select(isMap) {
@@ -1088,7 +1088,7 @@ func c19DroppedReport(p *core.Prog, r *core.Report) {
 					continue
 				}
 				if k, ok := kv.Key.(*ast.Ident); ok && k.Name == "Dropped" {
-					if dc := core.AsCall(info, kv.Value, dropped); dc != nil {
+					if dc := core.AsCall(info, core.ResolveLocal(info, body, kv.Value), dropped); dc != nil {
 						// receiver is the MapShards result
 						if d, ok := core.SingleDef(info, body, core.ObjOf(info, core.Recv(dc))); ok && d.Rhs != nil && core.AsCall(info, d.Rhs, call(coordP+".PointsWriter.MapShards")) != nil {
 							node, errObj = n, core.ObjOf(info, as.Lhs[0])
@@ -1101,7 +1101,7 @@ func c19DroppedReport(p *core.Prog, r *core.Report) {
 			// guarded by a test of Dropped()
 			guard := core.EdgeEstablishing(func(a ast.Expr, v bool) bool {
 				x, op, c, ok := core.IntCmp(info, a)
-				return ok && core.AsCall(info, x, dropped) != nil && c == 0 && (op == token.GTR && v || op == token.LEQ && !v || op == token.NEQ && v || op == token.EQL && !v)
+				return ok && core.AsCall(info, core.ResolveLocal(info, body, x), dropped) != nil && c == 0 && (op == token.GTR && v || op == token.LEQ && !v || op == token.NEQ && v || op == token.EQL && !v)
 			})
 			bad := g.NotReachableUnless(func(n *core.Node) bool { return n == node }, nil, guard)
 			r.Check(len(bad) == 0, rule, f.String(), "Dropped()>0-guard", g.Line(node), "the partial-write error is built only when Dropped() > 0")
